@@ -543,7 +543,16 @@ func (r *runningStep) provideEnablingInput(input map[string]any) error {
 	}
 	// Check to make sure it's enabled.
 	// This is an optional field, so no input means enabled.
-	enabled := input["enabled"] == nil || input["enabled"] == true
+	enabled := true
+	if input["enabled"] != nil {
+		// A literal written in the workflow file arrives in its YAML string form ("true", "no", ...):
+		// interpret it the way the stage's input schema does instead of comparing it with the Go value true.
+		unserializedEnabled, err := schema.NewBoolSchema().Unserialize(input["enabled"])
+		if err != nil {
+			return fmt.Errorf("invalid value for 'enabled' of step %s (%w)", r.runID, err)
+		}
+		enabled = unserializedEnabled.(bool)
+	}
 	r.enabledInputAvailable = true
 	r.enabledInput <- enabled
 	return nil
